@@ -134,8 +134,7 @@ func features(toks []token) map[string]int {
 						depth++
 					} else if u.k == tPunct && (u.s == "(" || u.s == "[" || u.s == "{") || u.k == tTemplate && u.tmpl == 1 {
 						if depth == 0 {
-							if u.k == tPunct && u.s == "{" && objectBracePrev(at(k-1)) && objectLikeStart(at(k+1), at(k+2)) &&
-								!(isPunct(at(k-1), ":") && !(isPunct(at(k-3), "{") || isPunct(at(k-3), ","))) {
+							if u.k == tPunct && u.s == "{" && !u.block && objectLikeStart(at(k+1), at(k+2)) {
 								f["shorthand-property"] = 2015
 							}
 							break
@@ -295,6 +294,8 @@ func (ev *evaluator) evalProgram(input string, probes []string, cfgs []config) [
 			v.reason = "input-stack-overflow"
 		case "traceoverflow":
 			v.reason = "input-trace-overflow"
+		case "probe-failure":
+			v.reason = "probe-failure"
 		}
 		// C09: output compiles and is accepted again (judged whenever the input parses)
 		if !o.Compile {
